@@ -170,6 +170,7 @@ func (s *c09Sys) close() {
 	}
 	if s.dir != "" {
 		os.RemoveAll(s.dir)
+		os.Remove(filepath.Dir(s.dir))
 	}
 }
 
